@@ -109,7 +109,31 @@ def check_key(res, router, key, cell, configured, eligible, label):
   if d1 != d2:
     res.violation(sigbase + '/unstable', 'key %r: two calls differ: %r vs %r' % (key, d1, d2), wit)
     return False
+  # getDestinations() is a generator: a look-up that is still in flight (its consumer took the first destination only)
+  # while the same router answers another key must come out as if it had been alone
+  _N[0] += 1
+  prev = _LAST.get(id(router))
+  _LAST[id(router)] = key
+  if prev is not None and prev != key and _N[0] % 8 == 0:
+    try:
+      it = iter(router.getDestinations(key))
+      first = [d for _, d in zip(range(1), it)]
+      other = list(router.getDestinations(prev))
+      rest = list(it)
+      alone = list(router.getDestinations(prev))
+    except Exception as e:
+      res.violation(sigbase + '/interleaved/raised/%s' % type(e).__name__, 'interleaved look-ups of %r and %r raised %r' % (key, prev, e), wit)
+      return False
+    res.count('interleaved_lookups')
+    if first + rest != d1 or other != alone:
+      res.violation(sigbase + '/interleaved', 'key %r looked up while %r was in flight: %r / %r, alone they give %r / %r' % (
+        prev, key, first + rest, other, d1, alone), wit)
+      return False
   return True
+
+
+_LAST = {}
+_N = [0]
 
 
 def run_config(cfg, res):
